@@ -5,7 +5,9 @@
 -/
 import Fca.Drv.Util
 import Fca.Model.Duality
+import Fca.Model.DualityStore
 import Fca.Spec.Duality
+import Fca.Spec.DualityBig
 open Lean
 namespace Fca.Drv.C06
 open Fca Fca.Drv Fca.Dual Fca.Spec
@@ -145,8 +147,14 @@ def jLat (L : Lat) : Json :=
 
 def nodupPairs (ps : List (List Nat × List Nat)) : Bool := ps.eraseDups.length == ps.length
 
+/-- all formal concepts of `t`: the brute-force enumeration over the attribute subsets while it is affordable
+    (`2^width`, width ≤ 10) or the table is not wider than tall; beyond that (class H8 shapes: 3 x 65, 2 x 129 …)
+    the enumeration over the smaller side, proved to list the same set (`Fca.C06.big_oracles_sound`). -/
+def conceptsOracle (t : Table) : List (List Nat × List Nat) :=
+  if t.width ≤ t.height || t.width ≤ 10 then allConcepts t else allConceptsFast t
+
 /-- oracle: `L` lists exactly the concepts of `t` (no duplicates) -/
-def conceptsOK (t : Table) (L : Lat) : Bool := nodupPairs L.pairs && sameSet L.pairs (allConcepts t)
+def conceptsOK (t : Table) (L : Lat) : Bool := nodupPairs L.pairs && sameSet L.pairs (conceptsOracle t)
 
 /-- `{"op":"C06.latT","rows","w","L":lat,"L2":lat}` (`L` = implementation's lattice of `K`, `L2` = its
     lattice of `K.T`) → the model's `L.T` and the oracle verdicts. -/
@@ -179,7 +187,7 @@ def permOp : Handler := fun j => do
     ("P_ok", Json.bool (conceptsOK tp P)),
     ("P_cover_ok", Json.bool (coverOK false P.exts (childrenList P))),
     ("image", jPairs image),
-    ("image_ok", Json.bool (nodupPairs image && sameSet image (allConcepts t))),
+    ("image_ok", Json.bool (nodupPairs image && sameSet image (conceptsOracle t))),
     ("image_cover_ok", Json.bool (coverOK false (image.map (·.1)) (childrenList P)))])
 
 /-- `{"op":"C06.mono","be","rows","w","objs","attrs","hash","Lneg":lat,"LM":lat}` (`Lneg` = implementation's
@@ -195,7 +203,7 @@ def monoOp : Handler := fun j => do
   -- the brute-force enumeration over all pairs of subsets is used up to 2^14 pairs (and cross-checked with
   -- the proved-equivalent enumeration through the complemented table, which is used alone beyond that)
   let small := t.height + t.width ≤ 14
-  let fast := monoConceptsFast t
+  let fast := if t.width ≤ 12 then monoConceptsFast t else monoConceptsFast2 t
   let mc := if small then monoConcepts t else fast
   let agree := !small || (nodupPairs fast && sameSet fast mc)
   pure (Json.mkObj [
@@ -226,14 +234,93 @@ def orderOp : Handler := fun j => do
   let exts := L.exts
   pure (Json.mkObj [
     ("all_concepts", Json.bool (ps.all fun p => isConcept t p.1 p.2)),
-    ("complete", Json.bool (nodupPairs (ps ++ removed) && sameSet (ps ++ removed) (allConcepts t))),
+    ("complete", Json.bool (nodupPairs (ps ++ removed) && sameSet (ps ++ removed) (conceptsOracle t))),
     ("children_ok", Json.bool (coverOK false exts (childrenList L))),
     ("parents_ok", Json.bool (relOK upperCovers exts parents)),
     ("desc_ok", Json.bool (relOK strictDown exts desc)),
     ("anc_ok", Json.bool (relOK strictUp exts anc))])
 
+/-! ### class H5: a store of context objects through a history (model: `Fca.Model.DualityStore`) -/
+
+def jExceptStrs : Except PyErr (List String) → Json
+  | .ok xs => jStrs xs
+  | .error e => jErr e
+
+def namesAt (names : List String) (idx : List Nat) : List String := idx.map fun i => names.getD i ""
+
+/-- everything one asks a context object `X` in an observation: its content, `X.T`, `X.T.T` (+ `== X`), `~X`,
+    `~~X` (+ `== X`), `X[reversed rows, rotated columns]` — each as the model's value plus the specification
+    table — and the derivation operators BY NAME of `X` and of `X.T` for the given index selections (the names are
+    those `X` holds now), plus the named prime sets of the specification. -/
+def observe (X : Ctx) (so sa : List (List Nat)) : Json :=
+  let t := X.table
+  let pi := (List.range t.height).reverse
+  let sigma := (List.range t.width).drop 1 ++ (List.range t.width).take 1
+  let tt := ctxT X >>= ctxT
+  let nn := ctxNot X >>= ctxNot
+  let eqOf : Except PyErr Ctx → Json := fun r => match r with
+    | .ok K2 => jExceptBool (ctxEq K2 X)
+    | .error e => jErr e
+  let kt := ctxT X
+  let tNamed (f : Ctx → Except PyErr (List String)) : Json := match kt with
+    | .ok KT => jExceptStrs (f KT)
+    | .error e => jErr e
+  Json.mkObj [
+    ("ctx", jCtx X),
+    ("T", jExceptCtx kt), ("T_spec", jBoolss (transpose t).data),
+    ("TT", jExceptCtx tt), ("TT_eq", eqOf tt),
+    ("not", jExceptCtx (ctxNot X)), ("not_spec", jBoolss (complement t).data),
+    ("notnot", jExceptCtx nn), ("notnot_eq", eqOf nn),
+    ("get", jExceptCtx (ctxGet X pi sigma)), ("get_spec", jBoolss (permute t pi sigma).data),
+    ("pi", jNats pi), ("sigma", jNats sigma),
+    ("int", Json.arr (so.map fun A => jExceptStrs (X.intention (namesAt X.objNames A) false)).toArray),
+    ("ext", Json.arr (sa.map fun B => jExceptStrs (X.extension (namesAt X.attrNames B) none false)).toArray),
+    ("t_ext", Json.arr (so.map fun A => tNamed fun KT => KT.extension (namesAt X.objNames A) none false).toArray),
+    ("t_int", Json.arr (sa.map fun B => tNamed fun KT => KT.intention (namesAt X.attrNames B) false).toArray),
+    ("spec_int", Json.arr (so.map fun A => jStrs (namesAt X.attrNames (intAll t A))).toArray),
+    ("spec_ext", Json.arr (sa.map fun B => jStrs (namesAt X.objNames (extAll t B))).toArray)]
+
+/-- one step of a store history as sent by the harness; `obs` steps are answered, the others run the model -/
+inductive StoreStep where
+  | op (o : HOp)
+  | obs (i : Nat) (so sa : List (List Nat))
+
+def stepOf (be : Backend) (j : Json) : Except String StoreStep := do
+  match (← getStr j "o") with
+  | "T" => pure (.op (.derive (← getNat j "src") .T))
+  | "not" => pure (.op (.derive (← getNat j "src") .not))
+  | "get" => pure (.op (.derive (← getNat j "src") (.get (← getNatList j "pi") (← getNatList j "sigma"))))
+  | "objs" => pure (.op (.set (← getNat j "i") (.objs (← getStrList j "v"))))
+  | "attrs" => pure (.op (.set (← getNat j "i") (.attrs (← getStrList j "v"))))
+  | "data" => pure (.op (.set (← getNat j "i") (.data (← getTable j).data)))
+  | "fresh" => pure (.op (.fresh ⟨be, ← getTable j, ← getStrList j "objs", ← getStrList j "attrs"⟩))
+  | "obs" => pure (.obs (← getNat j "i") (← getNatss j "so") (← getNatss j "sa"))
+  | s => throw s!"unknown store step {s}"
+
+/-- run the steps; the replies to the `obs` steps in order.  After a failing step every later observation is
+    answered with the error (the harness only sends valid histories, so this never matches an implementation
+    that works). -/
+def runSteps : Except PyErr (List Ctx) → List StoreStep → List Json → List Json
+  | _, [], acc => acc.reverse
+  | .error e, .obs _ _ _ :: rest, acc => runSteps (.error e) rest (jErr e :: acc)
+  | .error e, .op _ :: rest, acc => runSteps (.error e) rest acc
+  | .ok S, .op o :: rest, acc => runSteps (stepStore S o) rest acc
+  | .ok S, .obs i so sa :: rest, acc =>
+    match S[i]? with
+    | some X => runSteps (.ok S) rest (observe X so sa :: acc)
+    | none => runSteps (.ok S) rest (jErr .IndexError :: acc)
+
+/-- `{"op":"C06.store","be","root":{rows,w,objs,attrs},"steps":[step..]}` → `{"obs":[observation..]}`;
+    the store starts with the single object `root` (slot 0). -/
+def storeOp : Handler := fun j => do
+  let be ← getBackend j
+  let r ← j.getObjVal? "root"
+  let root : Ctx := ⟨be, ← getTable r, ← getStrList r "objs", ← getStrList r "attrs"⟩
+  let steps ← (← arr (← j.getObjVal? "steps")).mapM (stepOf be)
+  pure (Json.mkObj [("obs", Json.arr (runSteps (.ok [root]) steps []).toArray)])
+
 def handlers : List (String × Handler) :=
   [("C06.ctx", ctxOp), ("C06.deriv", derivOp), ("C06.latT", latTOp), ("C06.perm", permOp),
-   ("C06.mono", monoOp), ("C06.order", orderOp)]
+   ("C06.mono", monoOp), ("C06.order", orderOp), ("C06.store", storeOp)]
 
 end Fca.Drv.C06
